@@ -54,6 +54,7 @@ type GenOpt struct {
 	EndMarker   bool
 	Rejects     bool // include requests that must be rejected (unknown session, no association)
 	Apps        bool // provision PFDs and reference application ids
+	FarBias     bool // most modifications are FAR updates (C14)
 }
 
 func NewGen(w *World, seed int64, opt GenOpt) *Gen {
@@ -463,6 +464,10 @@ func (g *Gen) modify(s *gsession) {
 
 	// in a modification the session's address is known and sent explicitly unless it was UP-allocated
 	kind := g.R.Intn(6)
+	if g.Opt.FarBias && g.R.Intn(4) > 0 {
+		kind = 0
+	}
+
 	if len(s.bearers) == 0 {
 		kind = 3
 	}
@@ -488,6 +493,17 @@ func (g *Gen) modify(s *gsession) {
 				b2.fd = nf2
 				r.UFAR = append(r.UFAR, nf2)
 			}
+		}
+
+		if g.R.Intn(4) == 0 { // an Update FAR for an id the session does not have is skipped and emits nothing
+			r.UFAR = append(r.UFAR, pfcpx.FAR{ID: 0x7E000000 + uint32(g.R.Intn(1000)), Action: 2, HasFP: true, Dst: "access", OHC: true,
+				PeerIP: 0xC0A80009, TEID: g.teid(), SNDEM: g.Opt.EndMarker})
+		}
+
+		if g.Opt.EndMarker && g.R.Intn(4) == 0 { // the uplink FAR is updated with the flag as well (its old tunnel is "none")
+			nu := b.fu
+			nu.SNDEM = true
+			r.UFAR = append(r.UFAR, nu)
 		}
 
 		g.Stats["mod_ufar"]++
